@@ -172,3 +172,84 @@ Theorem C04_async_reset_rise_refuted : exists tab ss r st i,
   s_next (sync_process tab ss (Some r) st) i <> dff_next (s_curr st i) (s_next (sync_process tab ss (Some r) st) i) false.
 Proof. exact async_reset_rise_refuted. Qed.
 Print Assumptions C04_async_reset_rise_refuted.
+
+(* ---------------- assignment windows (start, width) ---------------- *)
+(* ONLY THE ADDRESSED BITS CHANGE: an executed assignment replaces exactly the bits start <= i < start + width that
+   exist in the w-bit target, with bit i - start of the value; every other bit keeps its value *)
+Theorem C04_assignment_window w old s vw v i : 0 <= w -> 0 <= s -> 0 <= vw -> 0 <= i ->
+  Z.testbit (put w old s vw v) i =
+  if (s <=? i) && (i <? s + vw) && (i <? w) then Z.testbit v (i - s) else Z.testbit old i.
+Proof. exact (assignment_window w old s vw v i). Qed.
+Print Assumptions C04_assignment_window.
+
+Theorem C04_assignment_frame w old s vw v i : 0 <= w -> 0 <= s -> 0 <= vw -> 0 <= i ->
+  (i < s \/ s + vw <= i \/ w <= i) -> Z.testbit (put w old s vw v) i = Z.testbit old i.
+Proof. exact (assignment_frame w old s vw v i). Qed.
+Print Assumptions C04_assignment_frame.
+Example C04_assignment_window_example : put 8 170 2 3 5 = 182 /\ put 4 0 2 4 15 = 12.
+Proof. vm_compute. split; reflexivity. Qed.
+
+(* ---------------- _ir.NetlistDriver.emit_value ---------------- *)
+(* for ALL assignment lists of a driver, every chunk [cs, ce) of the signal and every valuation of nets and
+   conditions: the AssignmentList built for the chunk (windows overhanging the chunk clipped on both sides, windows
+   outside dropped, an unconditional full-chunk assignment folded into the default ONLY while nothing was kept)
+   computes bits [cs, ce) of "every assignment applied in order to the whole signal" *)
+Theorem C04_emit_value_correct cv rho cs ce sig l : 0 <= cs <= ce -> ce <= nlen sig -> cv CTrue = true -> starts_ok l ->
+  let '(d, kept) := emit_value cs ce sig l in
+  nir_run cv rho (ce - cs) kept (nval rho d) = bits_at (nir_run cv rho (nlen sig) l (nval rho sig)) cs (ce - cs)
+  /\ nlen d = ce - cs.
+Proof. exact (emit_value_correct cv rho cs ce sig l). Qed.
+Print Assumptions C04_emit_value_correct.
+(* non-vacuity — the shape of seeded change b04: x assigned under a condition, LATER unconditionally over its full
+   width: the later assignment is kept after the conditional one (not folded), an overhanging window is clipped *)
+Example C04_emit_value_example :
+  let sig := [NC false; NC false; NC false; NC false] in
+  let a := [NV 0%nat; NV 1%nat; NV 2%nat; NV 3%nat] in let b := [NV 4%nat; NV 5%nat; NV 6%nat; NV 7%nat] in
+  emit_value 0 4 sig [NA (CM 0 0) 0 a; NA CTrue 0 b] = (sig, [NA (CM 0 0) 0 a; NA CTrue 0 b]) /\
+  emit_value 0 4 sig [NA CTrue 0 b; NA (CM 0 0) 0 a] = (b, [NA (CM 0 0) 0 a]) /\
+  emit_value 1 3 sig [NA (CM 0 0) 0 a] = ([NC false; NC false], [NA (CM 0 0) 0 [NV 1%nat; NV 2%nat]]) /\
+  starts_ok [NA (CM 0 0) 0 a; NA CTrue 0 b].
+Proof. vm_compute. repeat split; repeat constructor; discriminate. Qed.
+
+(* ---------------- rtlil.emit_assignment_list ---------------- *)
+(* for ALL Match tables (created in netlist order) and ALL assignment lists: whenever the emitter's final assertion
+   `pos == len(cell.assignments)` holds (= Some), the process it builds — default first, nested `switch` on the Match
+   values in output-bit order, first matching case, default case for the all-dash pattern set, empty pattern sets
+   left out, later statements overriding earlier ones — computes the AssignmentList: default, then every assignment
+   in order, executed iff its condition net (Match output = enabled, first matching pattern set) is 1 *)
+Theorem C04_emit_assignment_list_correct rho tab w default l proc : wf_tab tab ->
+  emit_assignment_list tab default l = Some proc ->
+  forall acc, exec_ptrees rho w proc acc =
+              nir_run (cval rho tab) rho w l (put w acc 0 (nlen default) (nval rho default)).
+Proof.
+  intros Hwf H. exact (emit_assignment_list_sound rho tab w (cval rho tab) eq_refl
+                         (fun k mc b E => cval_unfold rho tab k mc b Hwf E) default l proc H).
+Qed.
+Print Assumptions C04_emit_assignment_list_correct.
+(* non-vacuity: If(s)/Elif(t) with a nested Switch, then an unconditional partial assignment *)
+Example C04_emit_assignment_list_example :
+  let tab := [MC CTrue [NV 0%nat; NV 1%nat] [[[None; Some true]]; [[Some true; None]]];
+              MC (CM 0 1) [NV 2%nat] [[[Some false]]; [[None]]]] in
+  let l := [NA (CM 0 0) 0 [NC true; NC true]; NA (CM 1 0) 1 [NC true]; NA (CM 1 1) 0 [NC true]; NA CTrue 3 [NV 3%nat]] in
+  wf_tab tab /\
+  emit_assignment_list tab [NC false; NC false; NC false; NC false] l =
+  Some [PA 0 [NC false; NC false; NC false; NC false];
+        PS [NV 0%nat; NV 1%nat]
+           [([[None; Some true]], [PA 0 [NC true; NC true]]);
+            ([[Some true; None]], [PS [NV 2%nat] [([[Some false]], [PA 1 [NC true]]); ([], [PA 0 [NC true]])]])];
+        PA 3 [NV 3%nat]].
+Proof.
+  split; [|vm_compute; reflexivity].
+  intros k mc H. destruct k as [|[|k]]; simpl in H; [injection H as <-; exact I|injection H as <-; simpl; auto|].
+  destruct k; discriminate.
+Qed.
+
+(* one driver chunk end to end: emit_value, then emit_assignment_list: the RTLIL process computes the chunk's bits of
+   "last active assignment wins" on the whole signal *)
+Theorem C04_chunk_process_correct rho tab cs ce sig l d kept proc : wf_tab tab ->
+  0 <= cs <= ce -> ce <= nlen sig -> starts_ok l ->
+  emit_value cs ce sig l = (d, kept) -> emit_assignment_list tab d kept = Some proc ->
+  exec_ptrees rho (ce - cs) proc 0 =
+  bits_at (nir_run (cval rho tab) rho (nlen sig) l (nval rho sig)) cs (ce - cs).
+Proof. exact (chunk_process_correct rho tab cs ce sig l d kept proc). Qed.
+Print Assumptions C04_chunk_process_correct.
